@@ -254,8 +254,9 @@ class Check:
         with open(os.path.join(VERIF, 'evidence', f'{self.pid}.json'), 'w') as f:
             json.dump(ev, f, indent=1, default=str)
         for f in self.kf.get('open', []):
-            if f.get('property') == self.pid and f.get('key') in self.known_hits:
-                print(f'KNOWN-FINDING: property={self.pid} {f.get("what", f.get("key"))}')
+            if f.get('property') == self.pid:
+                seen = '' if f.get('key') in self.known_hits else ' [listed; its trigger was not drawn in this run]'
+                print(f'KNOWN-FINDING: property={self.pid} {f.get("what", f.get("key"))}{seen}')
         for what, path, found in self.violations:
             tail = '' if found else ' no-failing-input-found'
             print(f'VIOLATION property={self.pid} replay={path}{tail}')
